@@ -189,6 +189,8 @@ func runC10(c *Ctx, r *Report) {
 	optionForwarding(c, r, "R-C10.7", append(loaderFetchSpecs(), constructorLoaderSpecs()...), "Length", "Exclude", "ShouldExclude")
 	r.Doc("R-C10.8", "the outcome does not depend on the fetch concurrency: no configuration of slots and queued hashes stalls the dispatcher (slot release before the mutex, worker accounting on every path)")
 	importRules(c, r, "C11", []string{"R-C11.1", "R-C11.6"}, "R-C10.8")
+	r.Doc("R-C10.11", "the loops that trim, put back and select entries process every element")
+	loopsComplete(c, r, "R-C10.11", func(fn *Fn) bool { return rootNamed(fn, "fromMultihash", "fromEntryHash", "fromJSON", "fromEntry", "lastEntries", "entrySlice", "dropOldestOthers", "Difference") }, "entries after the point where the loop stops are not considered: the kept set is not the most recent one, or supplied entries are dropped")
 	r.Doc("R-C10.9", "the loaders only sort slices they own: a list that may share its backing array with a caller-supplied slice (append(param, …)) is never sorted in place — the caller's supplied entries would be overwritten and the wrong entries put back")
 	{
 		nsort := 0
